@@ -110,7 +110,8 @@ CHECKS = {
              "scale-variation manager is handed the same nf and that kernel lists depend on thresholds only through nf. CrossHair "
              "confirms over all paths for an UNBOUNDED int NfFF that update_fns yields clamp(NfFF-3,0,3) zero thresholds followed "
              "by inf ones with the documented massless flags; unknown schemes raise ValueError. The beta coefficients emitted by the real "
-             "apply_raw_diff_scale_variations equal beta0(nf), beta1(nf), beta0(nf)^2 for nf sequences on one shared manager.",
+             "apply_raw_diff_scale_variations equal beta0(nf), beta1(nf), beta0(nf)^2 for nf sequences on one shared manager."
+             " The coefficient functions of flavour-tagged observables (ZM-VFNS) and of the heavy/light/asymptotic channels (FFNS, FFN0) must be built for the same number of flavours; the CrossHair harness of update_fns also starts from cards with stale ZMc/ZMb/ZMt keys.",
         note=TRUST + "; CrossHair 0.0.110 for update_fns; reals have no ulp: the boundary convention at equality is covered; "
              "unordered matching scales (np.digitize raises) are outside.",
         technique="symbolic execution of the real Runner/Combiner (z3 proxies, all paths) + CrossHair on update_fns",
@@ -152,7 +153,8 @@ CHECKS = {
              "I + F(x) L(x) and the empty-domain exit. Part B: the real ESF.compute_local + Combiner + channel classes with "
              "conv.convolution recorded: every operator entry equals sum_kernels w_p * chi * conv_j(rsl_o, chi) (errors with "
              "|w_p|) and chi equals the published convolution point (x, x(1+m2/Q2), x(1+sqrt(1+4m2/Q2))/2). Holds for every "
-             "coefficient function and basis function at once, which no sampled run can show.",
+             "coefficient function and basis function at once, which no sampled run can show."
+             " Assembly cells with the REAL eko interpolator (concrete grids) check that every basis function is handed to the convolution for x anywhere in the grid; claims about quadrature limits are replayed by recording the real call.",
         note=TRUST + "; QUADPACK and eko's polynomials are replaced by their contracts (quadrature accuracy outside); scale "
              "variations switched off here (C05).",
         technique="symbolic execution of conv.convolution/compute_local with uninterpreted integrands (z3 QF_UFNRA) + path exploration",
@@ -179,7 +181,8 @@ CHECKS = {
              "equal to the published combination (Schienbein et al., Kretzer-Reno, Bluemlein-Tkabladze): prefactors, which "
              "observable is integrated, which integral (real kernel run at symbolic z, matched by solver-proved equality), the "
              "Nachtmann point; M=0 returns the uncorrected function exactly; ValueError exactly when xi(x) is below the grid."
-             " A second get_result() on the same (cached) TMC object must return the same tensors.",
+             " A second get_result() on the same (cached) TMC object must return the same tensors."
+             " The TMC mode and the target mass reach the configuration unchanged through the real Runner.",
         note=TRUST + "; approximate mode oracle: Schienbein closed forms for F2/F3, integrand frozen at the bottom end for FL/g1 "
              "(docs); accuracy of the j-sum as an interpolation of the integral is outside.",
         technique="symbolic execution of the real TMC classes with uninterpreted structure functions + z3 QF_UFNRA equality",
@@ -224,7 +227,8 @@ CHECKS = {
         text="Pairs of symbolic runs of the real Combiner/weight code; z3 proves for all electroweak parameters: NC with the Z "
              "terms switched off == EM (and eta_gammaZ ~ 1/(MZ2+Q2)); (e+,P) == (e-,-P); nubar/e- CC == nu/e+ CC on "
              "charge-conjugated partons with a sign flip for parity-violating kinds, arbitrary CKM; invariance of massless "
-             "NC/EM kernel lists under exchange of equal-charge active quarks.",
+             "NC/EM kernel lists under exchange of equal-charge active quarks."
+             " The decoupling and positron relations are also proved in the massive schemes (FFNS, FFN0, FONLL-FFNS).",
         note=TRUST + "; decoupling cells replace propagator_factor by its contract (1,E,E^2) with E=0; relations are on kernel "
              "lists (linearity gives the convolved statement).",
         technique="paired symbolic execution of the real Combiner (z3 proxies) + z3 NRA equality of linear forms",
@@ -249,7 +253,8 @@ CHECKS = {
              "proxies with forward-mode derivatives; z3 decides d loc/dz + sing == 0 for ALL z in (0,1) and all positive "
              "masses (exact for analytic families, within tau=1e-4 of the envelope for the transcribed NNLO/N3LO fits), the "
              "structural clauses and the definedness obligations (denominators, log/sqrt arguments) on every feasible path. "
-             "A sampled test can only see loc(0) and a few z; the solver sees the whole z-dependence.",
+             "A sampled test can only see loc(0) and a few z; the solver sees the whole z-dependence."
+             " Every part is re-evaluated at the same argument (after another point in between) and must return the same term; the singular and local parts of the x-space fits are also compared coefficient by coefficient in powers of ln(1-x) (formal expansion, 1e-4 relative per power).",
         note=TRUST + "; Li2/log/sqrt as atoms with exact derivative rules; LeProHQ/adani as uninterpreted functions; "
              "asy g1/F3 NLL/NNLL non-singlet local parts (complex Li2 / Nielsen) are not encodable and listed in the evidence.",
         technique="symbolic execution of the real Python kernels (z3 proxies + forward-mode AD) + z3 NRA validity queries",
